@@ -55,6 +55,14 @@ def angleCrisp (traces : List Polyline) (minSin2 : Rat) : Bool :=
           !(decide (Pt.dot u v > 0) && decide (cr * cr < k * minSin2 * (Pt.dot u u) * (Pt.dot v v)))
       | _ => true)
 
+/-- Crispness with respect to the tolerances of the junction and small-triangle detectors: two DISTINCT points in which traces
+of the configuration meet are at least `√minD2` apart (two crossings of one pair a few thresholds apart are the documented
+"small triangle" flavour of STACKED TRACES; crossings of different pairs within the tolerance are a MULTI JUNCTION by proximity:
+neither is a crisp configuration). Lattice END points are far from everything they do not touch, crossing points are not. -/
+def contactsApart (traces : List Polyline) (minD2 : Rat) : Bool :=
+  let cs := (junctionCandidates traces).eraseDups
+  cs.all fun p => cs.all fun q => p == q || decide (minD2 ≤ Pt.dot (p.sub q) (p.sub q))
+
 def defectsOf (traces : List Polyline) (i : Nat) : List String :=
   match traces[i]? with
   | none => []
